@@ -140,7 +140,7 @@ func goReachable(c *core.Ctx, fn *ssa.Function) (ssa.Instruction, []string) {
 }
 
 func c01(c *core.Ctx) {
-	c.Explain("C01 (PUBLISH delivery): decided statically — R2 the per-connection pipeline is single-consumer and spawn-free: client.in is received only by connectWithTimeOut/readHandle, client.out only by writeLoop, client.out is sent to only through write/sendErrConnack/connectWithTimeOut, no `go` statement is reachable from readHandle or pollMessageHandler inside the module, queue insertion is append-only (list.PushBack / rpush) and a list element is not walked after it was unlinked; R3 every enqueue receives a fresh Message.Copy() made at the call, and Message.Copy copies every field; R4 the enqueued QoS is min(message, subscription) and in onlyonce mode the remembered subscription is the one with the highest QoS while an existing per-client entry is never re-created; R5 DUP is cleared and RETAIN is cleared exactly when Retain-As-Published is off; R6 under No-Local for the publishing client none of the delivery effects is reachable; R7 only non-zero subscription identifiers are attached; R8 every delivery entry point (client closure, Publisher API, will) calls deliverMessage, which iterates the subscription store with the handler's callback and then flushes. (R1 lock discipline is decided under C15.)")
+	c.Explain("C01 (PUBLISH delivery): decided statically — R2 the per-connection pipeline is single-consumer and spawn-free: client.in is received only by connectWithTimeOut/readHandle, client.out only by writeLoop, client.out is sent to only through write/sendErrConnack/connectWithTimeOut, no `go` statement is reachable from readHandle or pollMessageHandler inside the module, queue insertion is append-only (list.PushBack / rpush) and a list element is not walked after it was unlinked; R3 every enqueue receives a fresh Message.Copy() made at the call, and Message.Copy copies every field; R4 the enqueued QoS is min(message, subscription) and in onlyonce mode the remembered subscription is the one with the highest QoS while an existing per-client entry is never re-created; R5 DUP is cleared and RETAIN is cleared exactly when Retain-As-Published is off; R6 under No-Local for the publishing client none of the delivery effects is reachable; R7 only non-zero subscription identifiers are attached; R8 every delivery entry point (client closure, Publisher API, will) calls deliverMessage, which iterates the subscription store with the handler's callback and then flushes. (R1 lock discipline is decided under C15.) Added in the second round: In onlyonce mode a strictly higher grant replaces the remembered subscription unconditionally; for QoS 1 and 2 every non-failing return of publishHandler has written the acknowledgement (shared with C04.R1).")
 	c.NotDecided("which subscriptions match a topic (trie semantics, see C02), exact copy counts per subscription, behaviour under drop conditions")
 	p := c.P
 	fl := ssax.NewFlow()
